@@ -1137,12 +1137,9 @@ class TaskPool:
 
         for itask in tasks:
             if itask.tdef.name in orphans:
-                if (
-                    itask.state(TASK_STATUS_WAITING)
-                    or itask.state.is_held
-                    or itask.state.is_queued
-                ):
+                if itask.state(TASK_STATUS_WAITING):
                     # Remove orphaned task if it hasn't started running yet.
+                    # (NOTE: an active task can be held too)
                     self.remove(itask, 'task definition removed')
                 else:
                     # Keep active orphaned task, but stop it from spawning.
